@@ -177,11 +177,19 @@ class FakePix:
     def ndim(self):
         return len(self.shape)
 
-    def transpose(self, axes):
-        axes = list(axes)
+    def transpose(self, *axes):
+        # numpy accepts transpose((2, 0, 1)), transpose([2, 0, 1]) and transpose(2, 0, 1)
+        axes = list(axes[0]) if len(axes) == 1 and isinstance(axes[0], (tuple, list)) else list(axes)
         return FakePix([self.shape[a] for a in axes], self.dtype, [self.axes[a] for a in axes])
 
     def __getitem__(self, idx):
+        # basic indexing is recorded in one normal form: one entry per axis, an Ellipsis or missing
+        # trailing axes written out as full slices
+        idx = idx if isinstance(idx, tuple) else (idx,)
+        if any(i is Ellipsis for i in idx):
+            k = [j for j, i in enumerate(idx) if i is Ellipsis][0]
+            idx = idx[:k] + (slice(None),) * (len(self.shape) - (len(idx) - 1)) + idx[k + 1:]
+        idx = idx + (slice(None),) * (len(self.shape) - len(idx))
         return FakePix(self.shape, self.dtype, self.axes, idx)
 
     def any(self):
@@ -432,15 +440,25 @@ def _replay_write_cog(layout, nb, dtype, nd, lv, dest, windowed, front, h, w, bs
             prove("georeferencing_reads_back", ds.transform == gb.transform and ds.crs.to_epsg() == 3857)
             prove("nodata_reads_back", ds.nodata == nd if nd is not None else ds.nodata is None)
             bh, bw = ds.block_shapes[0]
-            prove("tiled_with_multiples_of_16", ds.profile.get("tiled") is True and bh % 16 == 0 and bw % 16 == 0)
+            prove("tiled_with_multiples_of_16", bh % 16 == 0 and bw % 16 == 0)  # (rasterio's "tiled" flag is a guess from the block width: not used)
             ov = ds.overviews(1)
+
+            def _ovr_shapes():
+                # rasterio reports overview *factors* rounded from the sizes; the sizes themselves
+                # are what GDAL built: ceil(side / level) per requested level
+                out_ = []
+                for i in range(len(ov)):
+                    with (mf.open(overview_level=i) if isinstance(out, bytes) else rasterio.open(out, overview_level=i)) as o_:
+                        out_.append(tuple(o_.shape))
+                return out_
+
             if lv is None:
                 if h < 512 and w < 512:
                     prove("no_overviews_by_default_for_small_images", ov == [])
                 elif h >= 512 and w >= 512:
-                    prove("standard_overviews_by_default", ov == [2, 4, 8, 16, 32])
+                    prove("standard_overviews_by_default", _ovr_shapes() == [(-(-h // L), -(-w // L)) for L in (2, 4, 8, 16, 32)])
             else:
-                prove("exactly_the_requested_overview_levels", ov == lv)
+                prove("exactly_the_requested_overview_levels", _ovr_shapes() == [(-(-h // L), -(-w // L)) for L in lv])
 
 
 # ---- Z5: externally supplied overview layers ----------------------------------------------------
